@@ -48,6 +48,7 @@ theorem reflectAmount_range (ior : K) (h : 0 ≤ ior) (n s : V3 K) (hn : n.normS
 
 set_option linter.unusedTactic false in
 set_option linter.unreachableTactic false in
+set_option linter.unusedSimpArgs false in
 /-- **The current source text of `RefractMaterial.reflectAmount`** (translated from
 `/repo/render3d/material.go` by go/ast on every run, `M3d/Gen/ReflectAmount.lean`) **is Schlick's
 approximation** at the cosine `|normal·source|` — so `schlick_endpoints_monotone` is a statement
@@ -57,7 +58,8 @@ theorem reflectAmount_source_is_schlick (ior : K) (n s : V3 K) :
     M3d.Gen.ReflectAmount.reflectAmount ior n s = reflectAmount ior n s := by
   have h : M3d.Gen.ReflectAmount.reflectAmount ior n s = schlick ior (absS (n.dot s)) := by
     -- closes by unfolding when the source has the model's shape; `ring` absorbs algebraic rearrangements
-    simp only [M3d.Gen.ReflectAmount.reflectAmount, schlick, schlickR0, pow5_eq] <;> ring
+    have hc : s.dot n = n.dot s := dot_comm s n
+    simp only [M3d.Gen.ReflectAmount.reflectAmount, schlick, schlickR0, pow5_eq, hc] <;> ring
   exact ⟨h, h⟩
 
 /-- What was wrong before the repair (finding F12): the old expression `r0·(1−r0)·(1−cos)⁵`
